@@ -312,6 +312,9 @@ func (s *Sup) loop(mainPid int) {
 					mutating = true
 				case sysClose:
 					p.path = fds[int(p.args[0])]
+					// forget the descriptor at ENTRY: the kernel may hand the number to another thread's open as soon as
+					// this call runs, and that open's exit stop can be reported before this call's exit stop
+					delete(fds, int(p.args[0]))
 				}
 				if mutating && (s.inScope(p.path) || s.inScope(p.path2)) {
 					s.mu.Lock()
@@ -341,8 +344,6 @@ func (s *Sup) loop(mainPid int) {
 					if ret >= 0 {
 						fds[int(ret)] = p.path
 					}
-				case sysClose:
-					delete(fds, int(p.args[0]))
 				case sysDup, sysDup2, sysDup3:
 					if ret >= 0 {
 						if pth, ok := fds[int(p.args[0])]; ok {
